@@ -42,7 +42,7 @@ fn c09_expect(y: i32, m: u32, d: u32, k: i32) -> Option<i32> {
     }
 }
 
-//@ unit c09_date_add prop=C09,C02,C03 chunks=tuples:-480,480;2135900000,2136000000;-2136000000,-2135900000;481,130000;-130000,-481;130001,2135899999;-2135899999,-130001 quick=first:3 mem=4 timeout=1500/3600 stubs=crate::common::julian2date=>crate::verif_support::ghost_julian2date bound="every real date 0001-01-01..9999-12-31 (as a triple) x every month offset k of the sub-range: Date::add_interval_ym / sub_interval_ym"
+//@ unit c09_date_add prop=C09,C02,C03 chunks=tuples:2135900000,2136000000;-2136000000,-2135900000;-480,480;481,130000;-130000,-481;130001,2135899999;-2135899999,-130001 quick=first:2 mem=4 timeout=1500/3600 stubs=crate::common::julian2date=>crate::verif_support::ghost_julian2date bound="every real date 0001-01-01..9999-12-31 (as a triple) x every month offset k of the sub-range: Date::add_interval_ym / sub_interval_ym"
 fn c09_date_add(klo: i32, khi: i32) {
     let k = any_i32_in(klo, khi);
     let (date, (y, m, d)) = ghost_date(1, 9999);
@@ -52,17 +52,18 @@ fn c09_date_add(klo: i32, khi: i32) {
         Some(n) => match r {
             Ok(ts) => {
                 assert!(ts.usecs() == n as i64 * USECS_DAY);
-                kani::cover!(d == 29 && k % 12 != 0);
-                kani::cover!(d == 31);
             }
             Err(_) => assert!(false),
         },
         None => {
             assert!(r.is_err());
-            kani::cover!(d == 31);
-            kani::cover!(d == 29);
         }
     }
+    // vacuity witnesses (the range-limit sub-ranges can only fail: every target year is out of range)
+    let far = klo > 130_000 || khi < -130_000;
+    kani::cover!(exp.is_some() || far);
+    kani::cover!(exp.is_none() && d == 31);
+    kani::cover!((exp.is_some() && d == 29 && k % 12 != 0) || far);
     // subtracting is adding the negation
     let s = date.sub_interval_ym(mk_ym(-k));
     match (r, s) {
@@ -72,7 +73,7 @@ fn c09_date_add(klo: i32, khi: i32) {
     }
 }
 
-//@ unit c09_ts_add prop=C09,C02,C03,C17 chunks=tuples:-480,480;2135900000,2136000000;-2136000000,-2135900000;481,130000;-130000,-481;130001,2135899999;-2135899999,-130001 quick=first:3 mem=5 timeout=1500/3600 stubs=crate::common::julian2date=>crate::verif_support::ghost_julian2date,crate::timestamp::Timestamp::extract=>crate::verif_support::stub_ts_extract,crate::timestamp::Timestamp::date=>crate::verif_support::stub_ts_date,crate::timestamp::Timestamp::time=>crate::verif_support::stub_ts_time bound="every real date x every microsecond of the day x every month offset of the sub-range: Timestamp::add/sub_interval_ym keep day and time (OracleDate: s17_od_delegation)"
+//@ unit c09_ts_add prop=C09,C02,C03,C17 chunks=tuples:2135900000,2136000000;-2136000000,-2135900000;-480,480;481,130000;-130000,-481;130001,2135899999;-2135899999,-130001 quick=first:2 mem=5 timeout=1500/3600 stubs=crate::common::julian2date=>crate::verif_support::ghost_julian2date,crate::timestamp::Timestamp::extract=>crate::verif_support::stub_ts_extract,crate::timestamp::Timestamp::date=>crate::verif_support::stub_ts_date,crate::timestamp::Timestamp::time=>crate::verif_support::stub_ts_time bound="every real date x every microsecond of the day x every month offset of the sub-range: Timestamp::add/sub_interval_ym keep day and time (OracleDate: s17_od_delegation)"
 fn c09_ts_add(klo: i32, khi: i32) {
     let k = any_i32_in(klo, khi);
     let t = any_tod();
@@ -84,15 +85,16 @@ fn c09_ts_add(klo: i32, khi: i32) {
         Some(n) => match r {
             Ok(v) => {
                 assert!(v.usecs() == n as i64 * USECS_DAY + t);
-                kani::cover!(t > 0 && n < 0);
             }
             Err(_) => assert!(false),
         },
         None => {
             assert!(r.is_err());
-            kani::cover!(d >= 29);
         }
     }
+    let far = klo > 130_000 || khi < -130_000;
+    kani::cover!((exp.is_some() && t > 0) || far);
+    kani::cover!(exp.is_none() && d >= 29);
     match (r, ts.sub_interval_ym(mk_ym(-k))) {
         (Ok(a), Ok(b)) => assert!(a == b),
         (Err(_), Err(_)) => {}
@@ -249,7 +251,7 @@ fn o_period(u: U) -> i32 {
     }
 }
 
-//@ unit c10_date prop=C10,C02,C03 chunks=range:0:11 quick=all mem=4 timeout=1500/3600 stubs=crate::common::julian2date=>crate::verif_support::ghost_julian2date bound="every real date 0001-01-01..9999-12-31 (as a triple) for the truncation unit given by the parameter (0 century, 1 year, 2 ISO year, 3 quarter, 4 month, 5 week, 6 ISO week, 7 month-anchored week, 8 day, 9 Sunday week, 10 hour, 11 minute) on Date"
+//@ unit c10_date prop=C10,C02,C03 chunks=range:0:11 quickn=3 mem=4 timeout=1500/3600 stubs=crate::common::julian2date=>crate::verif_support::ghost_julian2date bound="every real date 0001-01-01..9999-12-31 (as a triple) for the truncation unit given by the parameter (0 century, 1 year, 2 ISO year, 3 quarter, 4 month, 5 week, 6 ISO week, 7 month-anchored week, 8 day, 9 Sunday week, 10 hour, 11 minute) on Date"
 fn c10_date(unit: u8) {
     let u = unit_of(unit);
     let (x, (y, m, d)) = ghost_date(1, 9999);
@@ -269,13 +271,20 @@ fn c10_date(unit: u8) {
     } else {
         assert!(matches!(r, Err(Error::DateOutOfRange)));
     }
-    // monotone on (x, x+1)
-    if n < DAY_MAX {
-        let x1 = mk_date(n + 1);
-        match (r, call_trunc_date(u, x1)) {
-            (Ok(a), Ok(c)) => assert!(a <= c),
-            _ => {}
+}
+
+//@ unit c10_date_mono prop=C10 tier=thorough chunks=range:0:11 mem=4 timeout=3600 stubs=crate::common::julian2date=>crate::verif_support::ghost_julian2date bound="every pair of consecutive real dates (x, x+1), truncation unit = parameter: trunc(x) <= trunc(x+1) (monotone)"
+fn c10_date_mono(unit: u8) {
+    let u = unit_of(unit);
+    let (x, _) = ghost_date(1, 9999);
+    let n = x.days();
+    kani::assume(n < DAY_MAX);
+    match (call_trunc_date(u, x), call_trunc_date(u, mk_date(n + 1))) {
+        (Ok(a), Ok(c)) => {
+            assert!(a <= c);
+            kani::cover!(a < c);
         }
+        _ => {}
     }
 }
 
@@ -288,7 +297,7 @@ fn c10_date_mustfail() {
 }
 
 
-//@ unit c10_ts prop=C10,C02,C03,C16,C17 chunks=range:0:11 quick=all mem=5 timeout=1500/3600 stubs=crate::common::julian2date=>crate::verif_support::ghost_julian2date,crate::timestamp::Timestamp::extract=>crate::verif_support::stub_ts_extract,crate::timestamp::Timestamp::date=>crate::verif_support::stub_ts_date,crate::timestamp::Timestamp::time=>crate::verif_support::stub_ts_time bound="every real date x every microsecond of the day, truncation unit = parameter, on Timestamp (OracleDate: s17_od_delegation); result compared with the Date-level boundary at midnight (C17) or the top of the hour/minute"
+//@ unit c10_ts prop=C10,C02,C03,C17 chunks=range:0:11 quickn=3 mem=5 timeout=1500/3600 stubs=crate::common::julian2date=>crate::verif_support::ghost_julian2date,crate::timestamp::Timestamp::extract=>crate::verif_support::stub_ts_extract,crate::timestamp::Timestamp::date=>crate::verif_support::stub_ts_date,crate::timestamp::Timestamp::time=>crate::verif_support::stub_ts_time bound="every real date x every microsecond of the day, truncation unit = parameter, on Timestamp (OracleDate: s17_od_delegation); result compared with the Date-level boundary at midnight (C17) or the top of the hour/minute"
 fn c10_ts(unit: u8) {
     let u = unit_of(unit);
     let t = any_tod();
@@ -468,7 +477,9 @@ fn c11_date_body(u: U, y00_rounds_up: bool, only_y00: bool) {
     let n = x.days();
     let b = o_round_day(u, n, y, m, d, y00_rounds_up);
     let r = call_round_date(u, x);
-    if b <= DAY_MAX as i64 {
+    // the chosen boundary must exist: a week unit of 0001-01-01..03 rounds down to a day before
+    // the minimum date, which is an error just as a boundary after the maximum is
+    if b >= DAY_MIN as i64 && b <= DAY_MAX as i64 {
         match r {
             Ok(v) => {
                 assert!(v.days() as i64 == b);
@@ -484,16 +495,24 @@ fn c11_date_body(u: U, y00_rounds_up: bool, only_y00: bool) {
         assert!(matches!(r, Err(Error::DateOutOfRange)));
         kani::cover!(true);
     }
-    // monotone on (x, x+1), except for the ISO year
-    if n < DAY_MAX && u != U::IsoYear {
-        match (r, call_round_date(u, mk_date(n + 1))) {
-            (Ok(a), Ok(c)) => assert!(a <= c),
-            _ => {}
+}
+
+//@ unit c11_date_mono prop=C11 tier=thorough chunks=ints:0,1,3,4,5,6,7,8,9,10,11 mem=4 timeout=3600 stubs=crate::common::julian2date=>crate::verif_support::ghost_julian2date bound="every pair of consecutive real dates (x, x+1), rounding unit = parameter (all but the ISO year): round(x) <= round(x+1)"
+fn c11_date_mono(unit: u8) {
+    let u = unit_of(unit);
+    let (x, _) = ghost_date(1, 9999);
+    let n = x.days();
+    kani::assume(n < DAY_MAX);
+    match (call_round_date(u, x), call_round_date(u, mk_date(n + 1))) {
+        (Ok(a), Ok(c)) => {
+            assert!(a <= c);
+            kani::cover!(a < c);
         }
+        _ => {}
     }
 }
 
-//@ unit c11_date prop=C11,C02,C03 chunks=range:0:11 quick=all mem=4 timeout=1500/3600 stubs=crate::common::julian2date=>crate::verif_support::ghost_julian2date bound="every real date 0001-01-01..9999-12-31 (as a triple), rounding unit = parameter, on Date; for the century unit the years divisible by 100 are covered by c11_century_y00_*"
+//@ unit c11_date prop=C11,C02,C03 chunks=ints:5,0,1,2,3,4,6,7,8,9,10,11 quick=first:1 mem=4 timeout=1500/3600 stubs=crate::common::julian2date=>crate::verif_support::ghost_julian2date bound="every real date 0001-01-01..9999-12-31 (as a triple), rounding unit = parameter, on Date; for the century unit the years divisible by 100 are covered by c11_century_y00_*"
 fn c11_date(unit: u8) {
     c11_date_body(unit_of(unit), true, false);
 }
@@ -508,7 +527,7 @@ fn c11_century_y00_pinned() {
     c11_date_body(U::Century, false, true);
 }
 
-//@ unit c11_ts prop=C11,C02,C03,C16,C17 chunks=range:0:11 quick=all mem=6 timeout=1800/3600 stubs=crate::common::julian2date=>crate::verif_support::ghost_julian2date,crate::timestamp::Timestamp::extract=>crate::verif_support::stub_ts_extract,crate::timestamp::Timestamp::date=>crate::verif_support::stub_ts_date,crate::timestamp::Timestamp::time=>crate::verif_support::stub_ts_time bound="every real date x every microsecond of the day, rounding unit = parameter, on Timestamp (OracleDate: s17_od_delegation); years divisible by 100 excluded for the century unit (see c11_century_y00_*)"
+//@ unit c11_ts prop=C11,C02,C03,C17 chunks=range:0:11 quickn=3 mem=6 timeout=1800/3600 stubs=crate::common::julian2date=>crate::verif_support::ghost_julian2date,crate::timestamp::Timestamp::extract=>crate::verif_support::stub_ts_extract,crate::timestamp::Timestamp::date=>crate::verif_support::stub_ts_date,crate::timestamp::Timestamp::time=>crate::verif_support::stub_ts_time bound="every real date x every microsecond of the day, rounding unit = parameter, on Timestamp (OracleDate: s17_od_delegation); years divisible by 100 excluded for the century unit (see c11_century_y00_*)"
 fn c11_ts(unit: u8) {
     let u = unit_of(unit);
     let t = any_tod();
@@ -564,7 +583,7 @@ fn c11_ts_expect(u: U, n: i32, y: i32, m: u32, d: u32, t: i64) -> Option<i64> {
         }
         U::Hour | U::Minute => n as i64,
     };
-    if day > DAY_MAX as i64 + 1 {
+    if day > DAY_MAX as i64 + 1 || day < DAY_MIN as i64 {
         return None;
     }
     let tod = match u {
